@@ -77,15 +77,12 @@ def run_many(chk, focus, nruns, wlat=0.02, extra_programs=()):
         meta["ntasks"] = sum(o["nt"] for o in plan["ops"])
         docs.append(doc)
         metas.append(meta)
-    verdicts = {}
-    B = 40
-    for off in range(0, len(docs), B):
-        v, r = validate_traces("DagTrace", docs[off:off + B], constants=dict(Focus=focus), timeout=1800)
-        chk.add_tlc(f"DagTrace[{focus}]/batch{off // B}", r)
-        if len(v) != len(docs[off:off + B]):
-            raise MachineryError(f"DagTrace returned {len(v)} verdicts for {len(docs[off:off + B])} traces\n{r.out[-2000:]}")
-        for t, x in v.items():
-            verdicts[off + t] = x
+    from harness.tlc import validate_traces_parallel
+    verdicts, results = validate_traces_parallel("DagTrace", docs, constants=dict(Focus=focus), batch=6, jobs=8)
+    for n, r in enumerate(results):
+        chk.add_tlc(f"DagTrace[{focus}]/batch{n}", r)
+    if len(verdicts) != len(docs):
+        raise MachineryError(f"DagTrace returned {len(verdicts)} verdicts for {len(docs)} traces")
     return docs, metas, verdicts
 
 
